@@ -18,10 +18,7 @@ Record case := {
   c_branch : string;           (* pint ci: current branch *)
   c_base : string;             (* pint ci: --base-branch *)
   c_json_exists : bool;        (* the --json file exists afterwards (possibly empty) *)
-  c_exit_code : Z;             (* observed exit status *)
-  c_require_owner : bool;      (* --require-owner *)
-  c_unowned_broken_rule : bool (* class predicate of C05-require-owner-broken-rule-crash, computed by the harness from the
-                                  generated rule file: a readable file holds a rule with a rule-level parse error and no owner *)
+  c_exit_code : Z              (* observed exit status *)
 }.
 
 Fixpoint all_some {A} (l : list (option A)) : option (list A) :=
@@ -42,11 +39,10 @@ Definition lint_of (c : case) : lint_in :=
   {| li_setup := setup_of c;
      li_paths := if is c "no-paths" then 0%nat else 1%nat;
      li_find_ok := negb (is c "missing-path");
-     li_generate_ok := true; li_check_ok := true;
-     li_require_owner := c_require_owner c; li_unowned_broken_rule := c_unowned_broken_rule c;
+     li_generate_ok := true; li_check_ok := negb (is c "discovery-fails");
      li_min_sev := c_min_sev c; li_fail_on := c_fail_on c;
      li_outputs_ok := negb (is c "json-unwritable" || is c "checkstyle-unwritable");
-     li_submit_ok := true |}.
+     li_submit_ok := negb (is c "submit-fails") |}.
 
 Definition ci_of (c : case) : ci_in :=
   {| ci_setup := setup_of c;
@@ -54,16 +50,15 @@ Definition ci_of (c : case) : ci_in :=
      ci_base_branch := c_base c;
      ci_find_ok := true;
      ci_git_find_ok := negb (is c "bad-base");
-     ci_generate_ok := true; ci_check_ok := true;
-     ci_require_owner := c_require_owner c; ci_unowned_broken_rule := c_unowned_broken_rule c;
+     ci_generate_ok := true; ci_check_ok := negb (is c "discovery-fails");
      ci_outputs_ok := negb (is c "json-unwritable");
      ci_reporters_ok := negb (is c "github-no-token");
      ci_fail_on := c_fail_on c;
-     ci_submit_ok := true |}.
+     ci_submit_ok := negb (is c "submit-fails") |}.
 
 Definition known_faults : list string :=
   [""; "no-paths"; "missing-path"; "bad-config"; "missing-config"; "workers"; "log-level"; "json-unwritable";
-   "checkstyle-unwritable"; "not-a-repo"; "bad-base"; "github-no-token"].
+   "checkstyle-unwritable"; "not-a-repo"; "bad-base"; "github-no-token"; "discovery-fails"; "submit-fails"].
 
 Definition model_outcome (c : case) : option outcome :=
   if negb (mem_str (c_fault c) known_faults) then None else
@@ -77,9 +72,8 @@ Definition check (c : case) : list string :=
   | None => ["malformed-case"]
   | Some o =>
       (if Bool.eqb (negb (Z.eqb (o_code o) 0)) (c_exit_nonzero c) then [] else ["exit-status"]) ++
-      (* the exact status (1 = error returned, 2 = panic) is compared only when the model predicts a normal end: which of two
-         failures wins (an invalid flag vs. the verifyOwners crash) depends on the order of stages, not on the property *)
-      (if Z.eqb (o_code o) 0 && negb (Z.eqb (c_exit_code c) 0) then ["exit-code"] else []) ++
+      (* a status other than 0 / the exit code of main() is a crash (the Go runtime exits with 2 on a panic): never modelled *)
+      (if Z.eqb (c_exit_code c) 0 || Z.eqb (c_exit_code c) main_exit_code then [] else ["crash-exit-code"]) ++
       (* the severities the model was evaluated on come from the report: it must exist whenever the model says the
          reports were submitted.  The other observations about the report (left absent / empty on an early error) are
          facts of the model that the property does not speak about; they are not compared, so that e.g. validating the
